@@ -1,5 +1,16 @@
 """C19 / C08 / C07 / C01 — small decision and exit-path units proved deductively."""
 from vlib.units import unit
+from vlib import mk
+import copy
+
+_PROG = []
+
+
+def _prog(mod):
+  if not _PROG:
+    _PROG.append(mk.program(mod))
+  return _PROG[0]
+
 
 U = 'compiler/universe.py'
 RT = 'compiler/rule_translate.py'
@@ -10,7 +21,7 @@ def gen_cdc(tier, mod):
   for n in range(0, 5):
     for preds in itertools.product('PQ', repeat=n):
       for flags in itertools.product((False, True), repeat=n):
-        p = mod.LogicaProgram.__new__(mod.LogicaProgram)
+        p = copy.copy(_prog(mod))
         p.rules = [(a, dict({'full_text': a}, **({'distinct_denoted': True} if f else {}))) for a, f in zip(preds, flags)]
         yield {'args': [], 'self': p, 'show': list(zip(preds, flags))}
 
